@@ -70,7 +70,7 @@ Legal(s, lb) ==
           /\ (lb.d # 0 => s[lb.d].ex)
           /\ LET sz == Len(s[lb.c].vals) IN
              /\ lb.src <= sz
-             /\ (lb.op \in {"insert1", "insert1rv", "emplace", "insertN", "insertRange", "insertIlist"} => lb.pos <= sz)
+             /\ (lb.op \in {"insert1", "insert1rv", "emplace", "emplaceF", "insertN", "insertRange", "insertIlist"} => lb.pos <= sz)
              /\ (lb.op = "erase1" => lb.pos < sz)
              /\ (lb.op = "eraseRange" => lb.pos <= lb.n /\ lb.n <= sz)
              /\ (lb.op \in {"popBack", "popBackVal", "front", "back"} => sz > 0)
@@ -90,7 +90,7 @@ ValueOwner(lb, exp, r) ==
 
 \* C09: operations for which the headers document the strong guarantee (element moves being noexcept)
 StrongOp(s, lb) ==
-  \/ lb.op \in {"pushBack", "pushBackRv", "emplaceBack", "insert1", "insert1rv", "emplace", "appendN", "appendNVal",
+  \/ lb.op \in {"pushBack", "pushBackRv", "emplaceBack", "emplaceBackF", "insert1", "insert1rv", "emplace", "emplaceF", "appendN", "appendNVal",
                 "appendIlist", "resize", "resizeVal", "reserve", "shrinkToFit", "ctorCopy"}
   \/ (lb.op = "appendRange" /\ lb.it # "input")
   \/ (lb.op \in {"insertN", "insertIlist"} /\ lb.pos = Len(s[lb.c].vals))
@@ -158,15 +158,15 @@ NAllocReq(as) == Cardinality({i \in 1..Len(as) : as[i][1] \in {"alloc", "realloc
 (* number of leading elements that an operation must not touch when it does not reallocate (C07) *)
 StablePrefix(s, lb) ==
   LET sz == Len(s[lb.c].vals) IN
-  CASE lb.op \in {"insert1", "insert1rv", "emplace", "insertN", "insertRange", "insertIlist", "erase1", "eraseRange"} -> lb.pos
-    [] lb.op \in {"pushBack", "pushBackRv", "emplaceBack", "appendN", "appendNVal", "appendRange", "appendIlist",
+  CASE lb.op \in {"insert1", "insert1rv", "emplace", "emplaceF", "insertN", "insertRange", "insertIlist", "erase1", "eraseRange"} -> lb.pos
+    [] lb.op \in {"pushBack", "pushBackRv", "emplaceBack", "emplaceBackF", "appendN", "appendNVal", "appendRange", "appendIlist",
                   "reserve", "at", "index", "front", "back", "iterate", "eq", "ne", "lt", "le", "gt", "ge"} -> sz
     [] lb.op \in {"resize", "resizeVal"} -> Min(sz, lb.n)
     [] lb.op \in {"popBack", "popBackVal"} -> sz - 1
     [] OTHER -> 0
 
 Observers == {"at", "index", "front", "back", "iterate", "eq", "ne", "lt", "le", "gt", "ge"}
-AppendOps == {"pushBack", "pushBackRv", "emplaceBack"}
+AppendOps == {"pushBack", "pushBackRv", "emplaceBack", "emplaceBackF"}
 
 AddViol(v, ps, ln, why) ==
   LET new == SetToSeq({[p |-> q, l |-> ln, why |-> why] : q \in ps}) IN
